@@ -63,7 +63,9 @@ Definition leaf_equiv (a b : leaf) : bool :=
   && str_eqb (eff_charset a) (eff_charset b)
   && str_eqb (effective_filename a) (effective_filename b)
   && str_eqb (trim_space (l_cid a)) (trim_space (l_cid b))
-  && eq_upto_final_break (decode (l_cte a) (l_body a)) (decode (l_cte b) (l_body b)).
+  && str_eqb (decode (l_cte a) (l_body a)) (decode (l_cte b) (l_body b)).
+  (* tightened after 84a3070 / eb5748f: the decoded content is IDENTICAL; the property only
+     asks for equality up to a final line break ([eq_upto_final_break], implied) *)
 
 Fixpoint mime_equiv (a b : mime) {struct a} : bool :=
   match a, b with
